@@ -291,7 +291,22 @@ static void *reader_main(void *arg)
 			/* unregister straight from the online state: the library must treat it as a quiescent state AND
 			 * wake a grace period that sleeps waiting for this thread */
 			reader_unregister(t);
-			if (x >= 997)
+			if (churn_direct_pct) {
+				/* stay away (like a thread that exits) until some grace period completes: if the one that was
+				 * waiting for this thread was not woken by the unregistration, nothing else will wake it */
+				uint64_t r0 = 0;
+				for (int i = n_readers; i < n_readers + n_updaters; i++)
+					r0 += VP_LOAD(thr[i].returns);
+				for (;;) {
+					uint64_t r1 = 0;
+					for (int i = n_readers; i < n_readers + n_updaters; i++)
+						r1 += VP_LOAD(thr[i].returns);
+					if (r1 != r0 || VP_LOAD(stop_readers) ||
+					    __atomic_load_n(&updaters_done, __ATOMIC_RELAXED) >= n_updaters)
+						break;
+					usleep(20);
+				}
+			} else if (x >= 997)
 				usleep(vp_rand_n(&t->rng, 2000));
 			reader_register(t);
 			t->reg_cycles++;
